@@ -43,7 +43,7 @@ func toEthBlock(b *sim.Block) eth.Block {
 		et := eth.Tx{Idx: eth.Uint64(tx.Idx), Type: eth.Byte(tx.Type), Nonce: eth.Uint64(tx.Nonce), GasPrice: u256(tx.GasPrice), GasLimit: eth.Uint64(tx.Gas),
 			From: append([]byte{}, tx.From...), To: append([]byte{}, tx.To...), Value: u256(tx.Value), Data: append([]byte{}, tx.Input...),
 			PrecompHash: append([]byte{}, tx.Hash...)}
-		if tx.Type == 2 {
+		if tx.HasFeeCap() {
 			et.MaxPriorityFeePerGas, et.MaxFeePerGas = u256(tx.MaxPrio), u256(tx.MaxFee)
 		}
 		et.Status, et.GasUsed, et.EffectiveGasPrice = eth.Byte(tx.Status), eth.Uint64(tx.GasUsed), u256(tx.EffGasPrice)
@@ -91,6 +91,12 @@ func c12Decl(rt *rapid.T, pool *gen.Pool) (*refmodel.Decl, *big.Int) {
 		if rapid.Bool().Draw(rt, "arr") {
 			add(&refmodel.Type{Kind: refmodel.KArray, Len: -1, Elem: &refmodel.Type{Kind: refmodel.KUint, Bits: 256}}, "arr")
 		}
+		if rapid.Bool().Draw(rt, "tup") {
+			// a struct input: filters may sit on its components only
+			tup := &refmodel.Type{Kind: refmodel.KTuple, Name: "t", Fields: []*refmodel.Type{
+				{Kind: refmodel.KAddress, Name: "ta", Column: "ta"}, {Kind: refmodel.KUint, Bits: 64, Name: "tn", Column: "tn"}}}
+			ev.Inputs = append(ev.Inputs, tup)
+		}
 		d.Event = ev
 		for _, s := range ev.Selected() {
 			d.Columns = append(d.Columns, refmodel.Column{Name: s.Column, Type: gen.ColTypeFor(s.Leaf)})
@@ -113,10 +119,17 @@ func c12Decl(rt *rapid.T, pool *gen.Pool) (*refmodel.Decl, *big.Int) {
 	}
 	var cands []cand
 	if d.Event != nil {
-		for _, in := range d.Event.Inputs {
+		var addCand func(in *refmodel.Type)
+		addCand = func(in *refmodel.Type) {
 			b, _ := in.Base()
 			k := ""
 			switch b.Kind {
+			case refmodel.KTuple:
+				for _, f := range b.Fields {
+					addCand(f)
+					addCand(f) // nested components: twice as likely
+				}
+				return
 			case refmodel.KAddress:
 				k = "addr"
 			case refmodel.KBytes:
@@ -127,6 +140,9 @@ func c12Decl(rt *rapid.T, pool *gen.Pool) (*refmodel.Decl, *big.Int) {
 				k = "uint"
 			}
 			cands = append(cands, cand{in: in, bf: -1, kind: k})
+		}
+		for _, in := range d.Event.Inputs {
+			addCand(in)
 		}
 	}
 	for i, b := range d.Block {
@@ -249,6 +265,89 @@ func c12Nontrivial(d *refmodel.Decl) (mixed bool, negAddr bool) {
 	return n >= 2, negAddr
 }
 
+// c12RowBuilderRun: declaration -> shovel's config code -> dig.New -> Insert with a
+// capturing connection; compares the emitted rows with the model. Returns the
+// number of expected rows and a violation text.
+func c12RowBuilderRun(d *refmodel.Decl, sblocks []*sim.Block, refSet map[string]bool) (int, string) {
+	raw, _ := json.Marshal(map[string]any{"pg_url": "x", "eth_sources": []any{map[string]any{"name": "src1", "chain_id": 5, "url": "http://x"}}, "integrations": []any{d.JSON(), c12RefDecl().JSON()}})
+	var conf config.Root
+	if err := json.Unmarshal(raw, &conf); err != nil {
+		return 0, "config: " + err.Error()
+	}
+	if err := config.ValidateFix(&conf); err != nil {
+		return 0, fmt.Sprintf("configuration in the filter domain refused: %v", err)
+	}
+	ig := conf.Integrations[0]
+	dg, err := dig.New(ig.Name, ig.Event, ig.Block, ig.Table, ig.Notification, ig.FilterAGG)
+	if err != nil {
+		return 0, "dig.New: " + err.Error()
+	}
+	var blocks []eth.Block
+	for _, b := range sblocks {
+		blocks = append(blocks, toEthBlock(b))
+	}
+	cc := &capConn{refs: map[string]bool{}}
+	for k := range refSet {
+		cc.refs["reftab|addr|"+k] = true
+	}
+	ctx := wctx.WithChainID(wctx.WithSrcName(context.Background(), "src1"), 5)
+	var ierr error
+	if p := catch(func() { _, ierr = dg.Insert(ctx, new(sync.Mutex), cc, blocks) }); p != nil {
+		return 0, fmt.Sprintf("Insert panicked: %v", p)
+	}
+	if ierr != nil {
+		return 0, fmt.Sprintf("Insert failed: %v", ierr)
+	}
+	dd := d.WithRequired()
+	want := model.Project(dd, sblocks, "src1", 5, func(ref *refmodel.Ref, val []byte, _ uint64) bool { return refSet[hex.EncodeToString(val)] })
+	var stored []map[string]any
+	for _, r := range cc.rows {
+		m := map[string]any{}
+		for i, c := range cc.cols {
+			v := canon(r[i])
+			if e, ok := v.(error); ok {
+				return len(want), fmt.Sprintf("unrenderable value in column %s: %v", c, e)
+			}
+			m[c] = v
+		}
+		stored = append(stored, m)
+	}
+	if df := model.Diff(dd, want, stored); df != "" {
+		return len(want), "emitted rows != rows the declared filters accept: " + df
+	}
+	return len(want), ""
+}
+
+// TestC12_KnownFindings: regressions of repaired defects.
+func TestC12_KnownFindings(t *testing.T) {
+	// fixed: filter_ref on a component of a tuple input was never resolved to a table
+	knownFinding(t, "C12", "C12/filter-ref-on-tuple-component-unresolved", func() string {
+		ev := &refmodel.Event{Name: "Flt"}
+		ta := &refmodel.Type{Kind: refmodel.KAddress, Name: "ta", Column: "ta"}
+		tn := &refmodel.Type{Kind: refmodel.KUint, Bits: 64, Name: "tn", Column: "tn"}
+		ev.Inputs = []*refmodel.Type{{Kind: refmodel.KTuple, Name: "t", Fields: []*refmodel.Type{ta, tn}}}
+		for _, op := range []string{"contains", "!contains"} {
+			d := &refmodel.Decl{Name: "ig", Enabled: true, Table: "tb", Event: ev, Filters: map[*refmodel.Type]*refmodel.Filter{ta: {Op: op, Ref: &refmodel.Ref{Integration: "reftab", Column: "addr"}}},
+				Columns: []refmodel.Column{{Name: "ta", Type: "bytea"}, {Name: "tn", Type: "numeric"}}, Sources: []refmodel.SourceRef{{Name: "src1", Start: 1}}}
+			chain := sim.NewChain()
+			w := func(x []byte) []byte { y := make([]byte, 32); copy(y[32-len(x):], x); return y }
+			var logs []sim.Log
+			for i := byte(1); i <= 2; i++ {
+				vals := []refmodel.Value{{T: ev.Inputs[0], Elems: []refmodel.Value{{T: ta, Word: w(addrN(i))}, {T: tn, Word: w([]byte{i})}}}}
+				topics, data := ev.LogOf(vals)
+				logs = append(logs, sim.Log{Addr: addrN(9), Topics: topics, Data: data, Event: ev, Vals: vals, Kind: "match"})
+			}
+			tx := plainTx(1)[0]
+			tx.Logs = logs
+			chain.Append([]sim.Tx{tx})
+			if _, v := c12RowBuilderRun(d, chain.Blocks[1:], map[string]bool{hex.EncodeToString(addrN(1)): true}); v != "" {
+				return op + " with the first of two addresses in the referenced table: " + v
+			}
+		}
+		return ""
+	})
+}
+
 // TestC12_RowBuilder: dig level with a capturing connection and a scripted reference lookup.
 func TestC12_RowBuilder(t *testing.T) {
 	ev := evid.For("C12", "RowBuilder")
@@ -263,55 +362,13 @@ func TestC12_RowBuilder(t *testing.T) {
 				refSet[hex.EncodeToString(a)] = true
 			}
 		}
-		// validate + fix through shovel's configuration code
-		raw, _ := json.Marshal(map[string]any{"pg_url": "x", "eth_sources": []any{map[string]any{"name": "src1", "chain_id": 5, "url": "http://x"}}, "integrations": []any{d.JSON(), c12RefDecl().JSON()}})
-		var conf config.Root
-		if err := json.Unmarshal(raw, &conf); err != nil {
-			rt.Fatalf("config: %v", err)
-		}
-		if err := config.ValidateFix(&conf); err != nil {
-			rt.Fatalf("VERIF-VIOLATION property=C12 configuration in the filter domain refused: %v\n %s", err, c12Describe(d))
-		}
-		ig := conf.Integrations[0]
-		dg, err := dig.New(ig.Name, ig.Event, ig.Block, ig.Table, ig.Notification, ig.FilterAGG)
-		if err != nil {
-			rt.Fatalf("dig.New: %v", err)
-		}
-		var blocks []eth.Block
 		var sblocks []*sim.Block
 		for _, b := range chain.Blocks[1:] {
-			blocks = append(blocks, toEthBlock(b))
 			sblocks = append(sblocks, b)
 		}
-		cc := &capConn{refs: map[string]bool{}}
-		for k := range refSet {
-			cc.refs["reftab|addr|"+k] = true
-		}
-		ctx := wctx.WithChainID(wctx.WithSrcName(context.Background(), "src1"), 5)
-		var ierr error
-		if p := catch(func() { _, ierr = dg.Insert(ctx, new(sync.Mutex), cc, blocks) }); p != nil {
-			rt.Fatalf("VERIF-VIOLATION property=C12 Insert panicked: %v\n %s", p, c12Describe(d))
-		}
-		if ierr != nil {
-			rt.Fatalf("VERIF-VIOLATION property=C12 Insert failed: %v\n %s", ierr, c12Describe(d))
-		}
-		dd := d.WithRequired()
-		want := model.Project(dd, sblocks, "src1", 5, func(ref *refmodel.Ref, val []byte, _ uint64) bool { return refSet[hex.EncodeToString(val)] })
-		// rows as maps
-		var stored []map[string]any
-		for _, r := range cc.rows {
-			m := map[string]any{}
-			for i, c := range cc.cols {
-				v := canon(r[i])
-				if e, ok := v.(error); ok {
-					rt.Fatalf("VERIF-VIOLATION property=C12 unrenderable value in column %s: %v", c, e)
-				}
-				m[c] = v
-			}
-			stored = append(stored, m)
-		}
-		if df := model.Diff(dd, want, stored); df != "" {
-			rt.Fatalf("VERIF-VIOLATION property=C12 emitted rows != rows the declared filters accept: %s\n %s\n referenced-table=%v", df, c12Describe(d), refSet)
+		want, v := c12RowBuilderRun(d, sblocks, refSet)
+		if v != "" {
+			rt.Fatalf("VERIF-VIOLATION property=C12 %s\n %s\n referenced-table=%v", v, c12Describe(d), refSet)
 		}
 		mixed, negAddr := c12Nontrivial(d)
 		total := 0
@@ -320,9 +377,9 @@ func TestC12_RowBuilder(t *testing.T) {
 				total += 1 + len(tx.Logs) + len(tx.Traces)
 			}
 		}
-		ev.Case(mixed || negAddr, c12Describe(d)+fmt.Sprint(len(want), total), fmt.Sprintf("mixed=%v", mixed), fmt.Sprintf("negOrOrLogAddr=%v", negAddr), "kind="+d.Kind(), fmt.Sprintf("accepted>0=%v", len(want) > 0), fmt.Sprintf("rejectedSome=%v", len(want) < total))
+		ev.Case(mixed || negAddr, c12Describe(d)+fmt.Sprint(want, total), fmt.Sprintf("mixed=%v", mixed), fmt.Sprintf("negOrOrLogAddr=%v", negAddr), "kind="+d.Kind(), fmt.Sprintf("accepted>0=%v", want > 0), fmt.Sprintf("rejectedSome=%v", want < total))
 		if mixed && ev.WantSample(3) {
-			ev.Sample(3, map[string]any{"declaration": c12Describe(d), "rows_accepted": len(want)})
+			ev.Sample(3, map[string]any{"declaration": c12Describe(d), "rows_accepted": want})
 		}
 	})
 }
